@@ -27,6 +27,12 @@ POOL = [
     'register q[0]\n',
     'from .nosuchmodule usepulses *\nregister q[1]\n',
     'from .vpulses usepulses *\nregister q[2]\nprepare_all\nX q[0]\nmeasure_all\n',
+    # 9, 10: the same value as a float in one text and as an integer (register size, slice bound, loop count) in another
+    'register q[2]\ng q[0] 4.0\n',
+    'register r[4]\nmap a r[1:4]\nloop 4 {\ng a[0]\n}\n',
+    # 11, 12: a macro call in one text; the very same statement in another text where no such macro or gate exists
+    'from .vpulses usepulses *\nregister q[2]\nmacro flip a { X a }\nprepare_all\nflip q[0]\nmeasure_all\n',
+    'from .vpulses usepulses *\nregister q[2]\nprepare_all\nflip q[0]\nmeasure_all\n',
 ]
 EDGE = {'NUM': ['1.0e400', '-2.5e999', '1.5e-400', '-.0', '+.5', '0.1E+5'],
         'INT': ['99999999999999999999999', '-0', '+2', '0002', '-36893488147419103232']}
@@ -58,9 +64,10 @@ def histories_stage(rep, tier, wd, rng):
             if d['texts']:
                 hs.add((d['util'], tuple(d['texts'])))
     hs = sorted(hs)
-    singles = [h for h in hs if len(h[1]) == 1]
-    rest = [h for h in hs if len(h[1]) > 1]
-    budget = 160 if tier == 'quick' else len(rest)
+    # every history of length <= 2 is replayed (every ordered pair of texts); longer ones are sampled in the quick tier
+    singles = [h for h in hs if len(h[1]) == 1] + [h for h in hs if len(h[1]) == 2 and not h[0]]
+    rest = [h for h in hs if len(h[1]) > 2 or (len(h[1]) == 2 and h[0])]
+    budget = 160 if tier == 'quick' else min(len(rest), 6000)
     if len(rest) > budget:
         rest = rng.sample(rest, budget)
         rep.cov['exhaustive'] = False
